@@ -296,6 +296,20 @@ func c05Build(t testing.TB, r *vreport.Report, sc c05Scenario) vsched.Scenario {
 					viol["C05/noconflicts/not-a-chain"] = fmt.Sprintf("history has leaves %v [%s]", leaves, name)
 				}
 			}
+			// every reserved sequence is accounted for (this also publishes what is still held as unused, so that the
+			// change cache can reach the end)
+			nBefore := len(viol)
+			v.accountSequences(viol, "C05/sequences", name, []string{"doc1", "doc2"}, nil)
+			if len(viol) == nBefore {
+				// with no sequence missing the cache must reach the last sequence; wait on that state (generous horizon: the
+				// machine may be loaded), not on a period without progress
+				if last, lerr := v.db.sequences.lastSequence(v.ctx); lerr == nil {
+					deadline := time.Now().Add(60 * time.Second)
+					for v.db.changeCache.getNextSequence() < last+1 && time.Now().Before(deadline) {
+						time.Sleep(time.Millisecond)
+					}
+				}
+			}
 			// the changes feed ends up announcing the final revision
 			options := ChangesOptions{ChangesCtx: ctx}
 			feed, err := coll.MultiChangesFeed(ctx, base.SetOf("*"), options)
@@ -310,11 +324,10 @@ func c05Build(t testing.TB, r *vreport.Report, sc c05Scenario) vsched.Scenario {
 						lastSeq = e.Seq.Seq
 					}
 				}
-				if last != doc.GetRevTreeID() || lastSeq != doc.Sequence {
+				if len(viol) == nBefore && (last != doc.GetRevTreeID() || lastSeq != doc.Sequence) {
 					viol["C05/changes/final-revision-not-announced"] = fmt.Sprintf("changes feed last announces doc1 at rev %q seq %d, the document is at rev %s seq %d [%s]", last, lastSeq, doc.GetRevTreeID(), doc.Sequence, name)
 				}
 			}
-			v.accountSequences(viol, "C05/sequences", name, []string{"doc1", "doc2"}, nil)
 			if len(viol) == 0 {
 				return nil
 			}
